@@ -85,6 +85,15 @@ CLAIMS["C07"] = (
     "Trusted: hooks H3-H5, UTF-8 DFA stub, reference encoders. NOT claimed: Eco's HTTP/JSON transport (ureq + serde_json).",
     "DESIGN.md §4 C07")
 
+CLAIMS["C03"] = (
+    "Solver verdict (a) over all 32 subsets of variants a server may speak that the auto-detecting queries try Java, "
+    "Bedrock, 1.6, 1.4, b1.8 in that order up to the first that answers, label the response with it and fail with "
+    "AutoQuery iff none answers; (b) that Bedrock pongs (6-9 fields) and legacy 1.6/1.4/b1.8 kick packets decode to exactly "
+    "the encoded status and that a corrupted header byte (any value) is rejected with the stated error kind.",
+    "Trusted: hooks H3/H5, listed stubs. NOT claimed: the Java JSON -> JavaResponse extraction (serde_json over symbolic "
+    "text); status texts are concrete.",
+    "DESIGN.md §4 C03")
+
 ALL = ["C%02d" % i for i in range(1, 21)]
 
 DEFAULT_NA = "check not built yet in this revision (work in progress; see DESIGN.md for the plan)"
